@@ -185,6 +185,18 @@ func (g *commonGen) secretFor(w *World, kind string, a int, b int) *SecretRef {
 		case "oauth2_callback":
 			return &SecretRef{Kind: "literal", Lit: w.Browsers[b].Session["oauth2_state"]}
 		}
+		if kbKind == "otp" && g.r.Bool() {
+			// any of the outstanding one-time passwords, not only the newest
+			var usableIdx []int
+			for i, s := range w.KB.list("otp", a) {
+				if s.Status == "valid" {
+					usableIdx = append(usableIdx, i)
+				}
+			}
+			if len(usableIdx) > 0 {
+				return &SecretRef{Kind: kbKind, A: a, Idx: usableIdx[g.r.Intn(len(usableIdx))]}
+			}
+		}
 		return &SecretRef{Kind: kbKind, A: a, Idx: -1}
 	}
 	switch g.r.Intn(9) {
@@ -284,6 +296,9 @@ func (g *commonGen) newPassword() *SecretRef {
 	case 1:
 		return &SecretRef{Kind: "literal", Lit: "alllowercase"}
 	case 2:
+		if g.r.Bool() {
+			return &SecretRef{Kind: "literal", Lit: "Aa1!" + strings.Repeat("é", 34)} // 72 bytes, 38 characters
+		}
 		return &SecretRef{Kind: "literal", Lit: strings.Repeat("Aa1!", 18)} // 72 bytes
 	default:
 		return &SecretRef{Kind: "literal", Lit: fmt.Sprintf("%s%d", goodPasswords[g.r.Intn(len(goodPasswords))], g.r.Intn(1000))}
@@ -497,8 +512,11 @@ func (g *commonGen) fill(w *World, kind string, b int) Step {
 		st.Str = map[string]string{"from": fmt.Sprint(g.r.Intn(len(w.Browsers))), "idx": fmt.Sprint(-1 - g.r.Intn(3))}
 	case "set_cookie":
 		st.Sec = g.garbage()
-		if g.r.Bool() {
+		switch g.r.Intn(3) {
+		case 0:
 			st.Sec = &SecretRef{Kind: "rmtable"}
+		case 1: // well-formed cookie naming a real account, never issued
+			st.Sec = &SecretRef{Kind: "forged_rm", A: g.pickAcct(w, b), Idx: g.r.Intn(1000)}
 		}
 	case "app_session_put":
 		st.Str = map[string]string{"key": []string{"app_theme", "app_cart", "app_other"}[g.r.Intn(3)], "val": fmt.Sprintf("v%d", g.r.Intn(100))}
@@ -512,6 +530,12 @@ func (g *commonGen) maybeFault(w *World, st *Step) {
 	}
 	kinds := []string{"err", "err", "notfound", "found"}
 	st.Fault = &FaultDirective{Index: g.r.Intn(5), Kind: kinds[g.r.Intn(len(kinds))]}
+	if g.r.Chance(1, 3) {
+		// aim at one kind of call
+		sites := []string{"db.Load", "db.Save", "db.UseRememberToken", "db.AddRememberToken", "hash.cmp", "hash.gen", "render.view", "sms.send", "db.LoadByRecoverSelector", "db.LoadByConfirmSelector"}
+		st.Fault.Site = sites[g.r.Intn(len(sites))]
+		st.Fault.Index = g.r.Intn(2)
+	}
 }
 
 func (g *commonGen) Next(w *World, n int) *Step {
